@@ -7,7 +7,7 @@ use libfuzzer_sys::fuzz_target;
 fuzz_target!(|data: &[u8]| {
     if data.len() < 2 { return; }
     with_ctx("C20", false, |ctx| {
-        let entry = props::c20::ENTRIES[data[0] as usize % props::c20::ENTRIES.len()];
+        let entry = props::c20::entry_for_byte(data[0]);
         let auxs = props::c20::aux_for(entry);
         let aux = auxs[data[1] as usize % auxs.len()];
         let case = props::c20::Case { entry: entry.to_string(), input: props::c20::Input::Raw(fw::util::Bytes(data[2..].to_vec())), aux: aux.to_string() };
